@@ -179,9 +179,14 @@ static void log_event(const char *what, const std::string &path, long long res, 
   Event e; e.seq = ++R.seq; e.task = tc ? tc->id : -1; e.op = tc ? tc->op : -1; e.what = what; e.path = path; e.res = res; e.err = err;
   R.ev.push_back(std::move(e));
 }
+static std::string normp(const std::string &p) {     // collapse repeated slashes
+  std::string n; for (char ch : p) { if (ch == '/' && !n.empty() && n.back() == '/') continue; n += ch; }
+  if (n.size() > 1 && n.back() == '/') n.pop_back();
+  return n;
+}
 static Fault *find_fault(const char *kind, const char *path) {
   if (!tc || !tc->faults) return nullptr;
-  for (auto &f : *tc->faults) if (!f.fired && f.kind == kind && (f.path.empty() || (path && f.path == path))) return &f;
+  for (auto &f : *tc->faults) if (!f.fired && f.kind == kind && (f.path.empty() || (path && normp(f.path) == normp(path)))) return &f;
   return nullptr;
 }
 static void fire(Fault *f) { f->fired = true; R.fired[f->kind]++; }
@@ -398,8 +403,8 @@ int __wrap_scandir(const char *dir, struct dirent ***namelist, int (*filter)(con
   log_event("scandir", dir ? dir : "", n, 0);
   // environment actor: files that vanish right after they were listed
   if (tc && tc->faults) for (auto &f : *tc->faults) if (!f.fired && f.kind == "vanish") {
-    std::string d = f.path.substr(0, f.path.rfind('/'));
-    if (d != dir) continue;
+    std::string np = normp(f.path); std::string d = np.substr(0, np.rfind('/'));
+    if (d != normp(dir)) continue;
     if (unlink(f.path.c_str()) == 0) { fire(&f); log_event("env_unlink", f.path, 0, 0); }
   }
   *namelist = list;
